@@ -38,6 +38,7 @@ const (
 	tBool  ty = "bool"
 	tBytes ty = "bytes"
 	tFn    ty = "fn"
+	tMap   ty = "map" // map[string]int64
 	tUnk   ty = "?"
 )
 
@@ -55,6 +56,8 @@ func leanTy(t ty) string {
 		return "GoSem.Bytes"
 	case tFn:
 		return "Int → Int → Bool"
+	case tMap:
+		return "List (GoSem.Bytes × Int)"
 	}
 	if strings.HasPrefix(string(t), "struct:") {
 		return strings.TrimPrefix(string(t), "struct:")
@@ -91,7 +94,7 @@ func (t *tr) goType(e ast.Expr) ty {
 			return tByte
 		case "bool":
 			return tBool
-		case "string", "ServerName":
+		case "string", "ServerName", "SenderID":
 			return tBytes
 		case "SignatureValidityCheckFunc":
 			return tFn
@@ -110,11 +113,15 @@ func (t *tr) goType(e ast.Expr) ty {
 		if exprName(x) == "spec.Timestamp" {
 			return tInt
 		}
-		if exprName(x) == "spec.ServerName" {
+		if exprName(x) == "spec.ServerName" || exprName(x) == "spec.SenderID" {
 			return tBytes
 		}
 	case *ast.StarExpr:
 		return t.goType(x.X)
+	case *ast.MapType:
+		if exprName(x.Key) == "string" && exprName(x.Value) == "int64" {
+			return tMap
+		}
 	case *ast.ArrayType:
 		if x.Len == nil {
 			if id, ok := x.Elt.(*ast.Ident); ok && (id.Name == "byte" || id.Name == "uint8") {
@@ -153,6 +160,15 @@ func (t *tr) lift(e ex) string {
 		return e.s
 	}
 	return "(some (" + e.s + "))"
+}
+
+// bytesLit prints a Go string constant as the list of its UTF-8 bytes.
+func bytesLit(v string) string {
+	parts := make([]string, 0, len(v))
+	for _, b := range []byte(v) {
+		parts = append(parts, strconv.Itoa(int(b)))
+	}
+	return "([" + strings.Join(parts, ", ") + "] : GoSem.Bytes)"
 }
 
 func litFor(v int64, want ty) string {
@@ -196,6 +212,12 @@ func (t *tr) expr(e ast.Expr) ex {
 			}
 			v := int64([]rune(s)[0])
 			return ex{lit: true, val: v, t: tInt, s: litFor(v, tInt)}
+		case token.STRING:
+			sv, err := strconv.Unquote(x.Value)
+			if err != nil {
+				t.bad("string literal %s", x.Value)
+			}
+			return ex{s: bytesLit(sv), t: tBytes}
 		}
 		t.bad("literal %s", x.Value)
 	case *ast.Ident:
@@ -208,8 +230,16 @@ func (t *tr) expr(e ast.Expr) ex {
 		if v, ok := t.p.cInt[x.Name]; ok {
 			return ex{lit: true, val: v, t: tInt, s: litFor(v, tInt)}
 		}
+		if v, ok := t.p.cStr[x.Name]; ok {
+			return ex{s: bytesLit(v), t: tBytes}
+		}
 		t.bad("identifier %s", x.Name)
 	case *ast.SelectorExpr:
+		if id, ok := x.X.(*ast.Ident); ok && id.Name == "spec" {
+			if v, ok := extern[x.Sel.Name]; ok {
+				return ex{s: bytesLit(v), t: tBytes}
+			}
+		}
 		base := t.expr(x.X)
 		if strings.HasPrefix(string(base.t), "struct:") && !base.mon {
 			fs := t.structs[strings.TrimPrefix(string(base.t), "struct:")]
@@ -287,6 +317,11 @@ func (t *tr) call(x *ast.CallExpr) ex {
 		pure()
 		if len(args) == 1 && args[0].t == tBytes {
 			return ex{s: "(GoSem.beUint32 " + args[0].s + ")", t: tU32, mon: true}
+		}
+	case "string":
+		pure()
+		if len(args) == 1 && args[0].t == tBytes {
+			return args[0]
 		}
 	case "rune", "int", "int64":
 		pure()
@@ -537,6 +572,20 @@ func (t *tr) stmts(list []ast.Stmt, k string, c *sctx) string {
 		}
 		return out
 	case *ast.AssignStmt:
+		if len(s.Lhs) == 2 && len(s.Rhs) == 1 && s.Tok == token.DEFINE {
+			// v, ok := m[k]
+			ix, isIx := s.Rhs[0].(*ast.IndexExpr)
+			v, ok1 := s.Lhs[0].(*ast.Ident)
+			okv, ok2 := s.Lhs[1].(*ast.Ident)
+			if isIx && ok1 && ok2 {
+				m, k := t.expr(ix.X), t.expr(ix.Index)
+				if m.t == tMap && k.t == tBytes && !m.mon && !k.mon {
+					t.vars[v.Name], t.vars[okv.Name] = tInt, tBool
+					return "let " + v.Name + " := (GoSem.mapGet " + m.s + " " + k.s + ").getD 0;\n  let " + okv.Name + " := (GoSem.mapGet " + m.s + " " + k.s + ").isSome;\n  " + rest()
+				}
+			}
+			t.bad("two-value assignment other than v, ok := m[k]")
+		}
 		if len(s.Lhs) != 1 || len(s.Rhs) != 1 {
 			t.bad("multiple assignment")
 		}
@@ -675,12 +724,26 @@ func usesIdent(n ast.Node, name string) bool {
 	return found
 }
 
+// isMapLookup: x is the right-hand side of a `v, ok := m[k]` somewhere in n (a map read cannot panic).
+func isMapLookup(n ast.Node, x *ast.IndexExpr) bool {
+	res := false
+	ast.Inspect(n, func(m ast.Node) bool {
+		if a, ok := m.(*ast.AssignStmt); ok && len(a.Lhs) == 2 && len(a.Rhs) == 1 && a.Rhs[0] == ast.Expr(x) {
+			res = true
+		}
+		return !res
+	})
+	return res
+}
+
 func hasPartial(n ast.Node) bool {
 	found := false
 	ast.Inspect(n, func(m ast.Node) bool {
 		switch x := m.(type) {
 		case *ast.IndexExpr:
-			found = true
+			if !isMapLookup(n, x) {
+				found = true
+			}
 		case *ast.CallExpr:
 			if exprName(x.Fun) == "binary.BigEndian.Uint32" {
 				found = true
@@ -836,6 +899,7 @@ var transModules = []struct {
 	{"TransSpec", func(p *Pkgs) *pkg { return p.Spec }, []string{"isDNSNameChar"}},
 	{"TransStateRes", func(p *Pkgs) *pkg { return p.Root }, []string{"sortStateResV2ConflictedPowerLevelHeap", "sortStateResV2ConflictedOtherHeap"}},
 	{"TransKeys", func(p *Pkgs) *pkg { return p.Root }, []string{"PublicKeyLookupResult.WasValidAt"}},
+	{"TransLevels", func(p *Pkgs) *pkg { return p.Root }, []string{"PowerLevelContent.UserLevel", "PowerLevelContent.EventLevel", "PowerLevelContent.NotificationLevel"}},
 }
 
 func init() {
